@@ -89,6 +89,34 @@ func checkFastCoherence(e *v1x.Env, universe [][]byte) {
 		}
 		c.Obs("fast_vs_walk_iterations", 1)
 	}
+	// bounded iteration over the working state: bounds on uncommitted and committed keys
+	for i := 0; i < 8 && len(probes) > 0; i++ {
+		start := probes[(e.Step*7+i*3)%len(probes)]
+		var end []byte
+		if i%2 == 1 {
+			end = probes[(e.Step*5+i*11)%len(probes)]
+		}
+		asc := i%4 < 2
+		it, err := e.T.Iterator(start, end, asc)
+		if err != nil {
+			e.Bad("fast|work|iterator-error", "Iterator: %v", err)
+			continue
+		}
+		var got []kvp
+		for ; it.Valid(); it.Next() {
+			got = append(got, kvp{append([]byte(nil), it.Key()...), append([]byte(nil), it.Value()...)})
+		}
+		it.Close()
+		var want []kvp
+		e.T.ImmutableTree.IterateRange(start, end, asc, func(k, v []byte) bool {
+			want = append(want, kvp{append([]byte(nil), k...), append([]byte(nil), v...)})
+			return false
+		})
+		if !samePairs(got, want) {
+			e.Bad("fast|work-"+state+"|bounded-iterator", "working tree Iterator(%q,%q,asc=%v) yields %s, tree walk yields %s", start, end, asc, fmtPairs(got), fmtPairs(want))
+		}
+		c.Obs("fast_vs_walk_bounded_iterations", 1)
+	}
 	var got []kvp
 	if _, err := e.T.Iterate(func(k, v []byte) bool {
 		got = append(got, kvp{append([]byte(nil), k...), append([]byte(nil), v...)})
